@@ -620,9 +620,13 @@ class CppFullGenerator(GeneratorBase):
                 occured = set()
                 for i, m in enumerate(n.members):
                     if m.bound:
-                        if m.bound not in (x.name for x in n.members[:i]):
+                        sizer = next((x for x in n.members[:i] if x.name == m.bound), None)
+                        if not sizer:
                             raise GenerateError('Sizing member {} of array {}.{} not found'.format(
                                 m.bound, n.name, m.name))
+                        if getattr(_get_leaf(sizer), 'type_name', None) not in BUILTIN2C:
+                            raise GenerateError('Sizing member {}.{} is not of an integer type'.format(
+                                n.name, m.bound))
                         if m.bound in occured:
                             raise GenerateError('Multiple arrays bounded by the same member ({}) in struct {} is '
                                                 'not supported'.format(m.bound, n.name))
